@@ -274,7 +274,8 @@ static void part_init_types(void)
          * and destination are heap blocks of exactly that length, so one byte too many is an ASan report (engine dies = violation). */
         for (int i = 0; i < n; i++) {
             const CO_OBJ_TYPE *t = root[i].Type;
-            if (t == CO_TUNSIGNED8 || t == CO_TUNSIGNED16 || t == CO_TUNSIGNED32 || t == CO_TSTRING || t == CO_TDOMAIN) continue;
+            if (t == CO_TSTRING || t == CO_TDOMAIN) continue;      /* content and length of these: parts (e), (f) */
+            if (CO_GET_IDX(root[i].Key) == 0x1001 || CO_GET_IDX(root[i].Key) == 0x1018) continue;
             for (uint32_t len = 1; len <= 6; len++) {
                 uint8_t *b = malloc(len); memset(b, 0xEE, len);
                 CO_ERR e = CODictRdBuffer(&Node.Dict, root[i].Key, b, len);
